@@ -32,9 +32,29 @@ BAND32_ABS = 3e-3
 PREC = {'double': (BAND_REL, BAND_ABS), 'single': (BAND32_REL, BAND32_ABS)}
 
 
+# Near the antipode gcirc's haversine 2*asin(x) is ill-conditioned: d(sep)/dx = 2/cos(sep/2), x carries ~2 ulp, i.e.
+# 2.5e-14/cos(sep/2) deg; it saturates where x rounds to 1 (true separation within 1.7e-6 deg of 180).  100 x that,
+# capped at 2e-4 deg.  Irrelevant (< 1e-11) below 150 deg.
+ANTIPODE_COEF = 2.5e-12
+ANTIPODE_CAP = 2e-4
+
+
+def antipode_term(sep):
+    s = np.minimum(np.asarray(sep, dtype='d'), 180.0)
+    c = np.cos(np.radians(0.5 * s))
+    return np.minimum(ANTIPODE_COEF / np.maximum(c, 1e-300), ANTIPODE_CAP)
+
+
 def band(length, prec='double'):
     rel, ab = PREC[prec]
-    return max(rel * float(length), ab)
+    return max(rel * float(length), ab, float(antipode_term(length)))
+
+
+def tolerance(sep, prec='double'):
+    """array version of band(): admissible |reported - true| for separations `sep` (degrees)"""
+    rel, ab = PREC[prec]
+    sep = np.asarray(sep, dtype='d')
+    return np.maximum(np.maximum(rel * sep, ab), antipode_term(sep))
 
 
 def unit(ra, dec):
